@@ -154,6 +154,13 @@ def getUsed (u : UseA) (pub : Table) : Table :=
   if u.only = false ∧ u.items = [] then pub
   else pub.foldl (usedStep u.only u.renAll (usedNames u.items)) []
 
+/-- the tuple `(ret_procs, ret_absints, ret_types, ret_vars)` returned by `get_used_entities`: every
+    table of exported entities (`pub_procs`, `pub_absints`, `pub_types`, `pub_vars`) is filtered and
+    renamed on its own, by the same `used_names`.  One identifier may sit in several of them - a derived
+    type and the generic interface of the same name (its constructor) are an entry of `pub_types` and
+    an entry of `pub_procs`. -/
+def getUsedAll (u : UseA) (pubs : List Table) : List Table := pubs.map (getUsed u)
+
 /-! ### `correlate` -/
 
 def findMod (g : List Scope) (n : Str) : Option Scope :=
